@@ -23,6 +23,9 @@
 (*                     shows ERROR                                           *)
 (*   RunEndRecorded    at the end, every started run of an environment that  *)
 (*                     is not RUNNING any more has an end-of-run event       *)
+(*   RunEndClosed      a GO_ERROR / STOP_ACTIVITY that announced the end of  *)
+(*                     a run (STARTED event) and completed has published the *)
+(*                     closing (DONE) run event                              *)
 (* STRICT: the recorded hook points follow the watcher / lock automaton of   *)
 (* spec/Failure.tla (its operators WatchAfter, Rec, Dst) and every observed   *)
 (* state is the model's; a mismatch prints DRIFT and suspends strict checking *)
@@ -46,6 +49,8 @@ VARIABLES
   started,    \* run numbers whose START completed
   ended,      \* run numbers with an end-of-run event
   finalSt,    \* state in the last Snapshot
+  openTx,     \* <<run, transition>> whose STARTED run event has no DONE_* counterpart yet
+  unclosed,   \* ... and whose transition completed nevertheless
   \* strict
   mode,       \* "sync" | "lost"
   w,          \* watcher: "none" | "unsub" | "select" | "armed" | "fired" | "stop" | "exited"
@@ -56,8 +61,8 @@ VARIABLES
   nsent, nrecv
 
 tvars == <<l, scn, case, phase, nviol, place, dead, lastSt, expectSt, inflight, critFault, critSeen, gates, started, ended,
-           finalSt, mode, w, lk, envM, reM, srvErr, nsent, nrecv>>
-mvars == <<place, dead, lastSt, expectSt, inflight, critFault, critSeen, gates, started, ended, finalSt>>
+           finalSt, openTx, unclosed, mode, w, lk, envM, reM, srvErr, nsent, nrecv>>
+mvars == <<place, dead, lastSt, expectSt, inflight, critFault, critSeen, gates, started, ended, finalSt, openTx, unclosed>>
 svars == <<mode, w, lk, envM, reM, srvErr, nsent, nrecv>>
 
 Line == Trace[l]
@@ -143,7 +148,7 @@ HookS ==
               IF lk # Line.what THEN Lose(<<p, lk, Line.what>>)
               ELSE IF Line.what = "GO_ERROR"
                 THEN \* Failure!GoError / ForceError: ERROR unless refused (then env.setstate follows); already ERROR: skipped
-                     LET refused == case.hook # "none" /\ envM \in Live
+                     LET refused == case.hook \in {"early", "late"} /\ envM \in Live
                          exp == IF refused THEN envM ELSE "ERROR"
                          expRe == IF envM \in Live /\ ~(case.hook = "early") THEN Rec(reM) ELSE reM
                      IN IF Line.st # exp THEN Lose(<<p, "GO_ERROR", Line.st, exp>>)
@@ -160,7 +165,7 @@ HookS ==
                   ELSE lk' = "none" /\ envM' = Line.st /\ UNCHANGED <<mode, w, reM, srvErr, nsent, nrecv>>
          [] p = "env.setstate" ->
               \* Failure!ForceError (watcher) - or the API handler's forced ERROR
-              IF Line.to = "ERROR" /\ w = "fired" /\ case.hook # "none" /\ lk = "none"
+              IF Line.to = "ERROR" /\ w = "fired" /\ case.hook \in {"early", "late"} /\ lk = "none"
                 THEN envM' = "ERROR" /\ w' = "stop" /\ UNCHANGED <<mode, lk, reM, srvErr, nsent, nrecv>>
                 ELSE Lose(<<p, Line.to, w, lk>>)
          [] OTHER -> Keep
@@ -178,6 +183,7 @@ TReset ==
   /\ scn' = Line.scn /\ case' = Line.model /\ phase' = "run"
   /\ place' = <<>> /\ dead' = {} /\ lastSt' = "?" /\ expectSt' = "?" /\ inflight' = "none"
   /\ critFault' = FALSE /\ critSeen' = FALSE /\ gates' = {} /\ started' = {} /\ ended' = {} /\ finalSt' = "?"
+  /\ openTx' = {} /\ unclosed' = {}
   /\ mode' = "sync" /\ w' = "none" /\ lk' = "none" /\ envM' = "?" /\ reM' = "norun" /\ srvErr' = FALSE
   /\ nsent' = 0 /\ nrecv' = 0
   /\ UNCHANGED nviol
@@ -189,13 +195,13 @@ TAccept ==
                    THEN LET r == CHOOSE x \in {Line.tasks[i] : i \in 1..Len(Line.tasks)} : x.class = c
                         IN <<r.agent, r.executor>>
                    ELSE place[c]]
-  /\ UNCHANGED <<scn, case, phase, nviol, dead, lastSt, expectSt, inflight, critFault, critSeen, gates, started, ended, finalSt>>
+  /\ UNCHANGED <<scn, case, phase, nviol, dead, lastSt, expectSt, inflight, critFault, critSeen, gates, started, ended, finalSt, openTx, unclosed>>
   /\ Keep
 
 TApi ==
   /\ Line.ev = "Api"
   /\ inflight' = IF Line.call = "control" /\ phase = "run" THEN OpOf(Line.op) ELSE inflight
-  /\ UNCHANGED <<scn, case, phase, nviol, place, dead, lastSt, expectSt, critFault, critSeen, gates, started, ended, finalSt>>
+  /\ UNCHANGED <<scn, case, phase, nviol, place, dead, lastSt, expectSt, critFault, critSeen, gates, started, ended, finalSt, openTx, unclosed>>
   /\ Keep
 
 TReply ==
@@ -214,7 +220,7 @@ TReply ==
             \* for the lock may have been recorded before the reply line
             /\ (IF Line.st = Dst(OpOf(Line.op)) THEN Keep ELSE ObserveS(Line.st))
        ELSE UNCHANGED <<nviol, lastSt, expectSt, inflight>> /\ Keep
-  /\ UNCHANGED <<scn, case, phase, place, dead, critFault, critSeen, gates, started, ended, finalSt>>
+  /\ UNCHANGED <<scn, case, phase, place, dead, critFault, critSeen, gates, started, ended, finalSt, openTx, unclosed>>
 
 TFault ==
   /\ Line.ev = "Fault"
@@ -223,38 +229,47 @@ TFault ==
      IN /\ dead' = IF Line.kind = "INTERNAL_ERROR" THEN dead ELSE dead \cup H
         /\ critSeen' = (critSeen \/ hc)
         /\ critFault' = (critFault \/ (hc /\ Line.ok /\ Line.kind \in StatementKinds /\ lastSt \in Live))
-  /\ UNCHANGED <<scn, case, phase, nviol, place, lastSt, expectSt, inflight, gates, started, ended, finalSt>>
+  /\ UNCHANGED <<scn, case, phase, nviol, place, lastSt, expectSt, inflight, gates, started, ended, finalSt, openTx, unclosed>>
   /\ Keep
 
 THook ==
   /\ Line.ev = "Hook"
   /\ HookS
-  /\ UNCHANGED <<scn, case, phase, nviol>> /\ UNCHANGED mvars
+  \* a transition that ends a run and completed (the lock is released in the destination state) has published the
+  \* closing run event: its STARTED event is not left without a DONE_* one
+  /\ unclosed' = IF phase = "run" /\ Line.point = "env.lock.release"
+                     /\ ((Line.what = "GO_ERROR" /\ Line.st = "ERROR") \/ (Line.what = "STOP_ACTIVITY" /\ Line.st = "CONFIGURED"))
+                  THEN unclosed \cup {x \in openTx : x[2] = Line.what}
+                  ELSE unclosed
+  /\ UNCHANGED <<scn, case, phase, nviol, place, dead, lastSt, expectSt, inflight, critFault, critSeen, gates, started, ended, finalSt, openTx>>
 
 TObserve ==
   /\ Line.ev = "Observe"
   /\ ObserveM(Line.st)
   /\ ObserveS(Line.st)
-  /\ UNCHANGED <<scn, case, phase, place, dead, expectSt, inflight, critFault, critSeen, gates, started, ended, finalSt>>
+  /\ UNCHANGED <<scn, case, phase, place, dead, expectSt, inflight, critFault, critSeen, gates, started, ended, finalSt, openTx, unclosed>>
 
 TSnapshot ==
   /\ Line.ev = "Snapshot"
   /\ ObserveM(Line.st)
   /\ ObserveS(Line.st)
   /\ finalSt' = Line.st
-  /\ UNCHANGED <<scn, case, phase, place, dead, expectSt, inflight, critFault, critSeen, gates, started, ended>>
+  /\ UNCHANGED <<scn, case, phase, place, dead, expectSt, inflight, critFault, critSeen, gates, started, ended, openTx, unclosed>>
 
 TRunEv ==
   /\ Line.ev = "RunEv"
   /\ started' = IF Line.tx = "START_ACTIVITY" /\ Line.status = "DONE_OK" THEN started \cup {Line.rn} ELSE started
   /\ ended' = IF Line.tx \in {"STOP_ACTIVITY", "GO_ERROR"} /\ phase = "run" THEN ended \cup {Line.rn} ELSE ended
   /\ RunEvS
-  /\ UNCHANGED <<scn, case, phase, nviol, place, dead, lastSt, expectSt, inflight, critFault, critSeen, gates, finalSt>>
+  /\ openTx' = IF phase # "run" \/ Line.tx \notin {"STOP_ACTIVITY", "GO_ERROR"} THEN openTx
+               ELSE IF Line.status = "STARTED" THEN openTx \cup {<<Line.rn, Line.tx>>}
+               ELSE openTx \ {<<Line.rn, Line.tx>>}
+  /\ UNCHANGED <<scn, case, phase, nviol, place, dead, lastSt, expectSt, inflight, critFault, critSeen, gates, finalSt, unclosed>>
 
 TGate ==
   /\ Line.ev = "Gate"
   /\ gates' = IF Line.op = "armed" THEN gates \cup {Line.point} ELSE gates \ {Line.point}
-  /\ UNCHANGED <<scn, case, phase, nviol, place, dead, lastSt, expectSt, inflight, critFault, critSeen, started, ended, finalSt>>
+  /\ UNCHANGED <<scn, case, phase, nviol, place, dead, lastSt, expectSt, inflight, critFault, critSeen, started, ended, finalSt, openTx, unclosed>>
   /\ Keep
 
 \* end of the scenario's steps: the verdicts that need "nothing more will happen"
@@ -265,9 +280,10 @@ TEnd ==
        + (IF phase = "run" /\ gates = {} /\ finalSt # "?"
             THEN Soft("ErrorReached", critFault => finalSt = "ERROR", <<finalSt, lastSt>>)
                + Soft("RunEndRecorded", finalSt # "RUNNING" => started \subseteq ended, <<finalSt, started, ended>>)
+               + Soft("RunEndClosed", unclosed = {}, unclosed)
             ELSE 0)
   /\ (IF Sync /\ phase = "run" /\ nsent # nrecv THEN Drift(<<"sent/received", nsent, nrecv>>) ELSE TRUE)
-  /\ UNCHANGED <<scn, case, place, dead, lastSt, expectSt, inflight, critFault, critSeen, gates, started, ended, finalSt>>
+  /\ UNCHANGED <<scn, case, place, dead, lastSt, expectSt, inflight, critFault, critSeen, gates, started, ended, finalSt, openTx, unclosed>>
   /\ Keep
 
 TOther ==
@@ -283,7 +299,7 @@ TraceInit ==
   /\ budget = 0 /\ critHit = FALSE /\ critTouched = FALSE /\ excused = {}
   /\ l = 1 /\ scn = -1 /\ case = NoCase /\ phase = "ended" /\ nviol = 0
   /\ place = <<>> /\ dead = {} /\ lastSt = "?" /\ expectSt = "?" /\ inflight = "none" /\ critFault = FALSE /\ critSeen = FALSE
-  /\ gates = {} /\ started = {} /\ ended = {} /\ finalSt = "?"
+  /\ gates = {} /\ started = {} /\ ended = {} /\ finalSt = "?" /\ openTx = {} /\ unclosed = {}
   /\ mode = "lost" /\ w = "none" /\ lk = "none" /\ envM = "?" /\ reM = "norun" /\ srvErr = FALSE /\ nsent = 0 /\ nrecv = 0
 
 TraceNext ==
